@@ -144,10 +144,11 @@ def run(res, tier, seed):
     # ---------- through the readers: channel 3a active for a part of the pass (its target / space readings are then low) ----------
     import datetime
     import l1b
-    for fmt, sc in (("gac_klm", "noaa16"), ("lac_klm", "metopa")):
+    for fmt, sc in (("gac_klm", "noaa16"), ("lac_klm", "metopa"), ("gac_pod", "noaa14"), ("lac_pod", "noaa12")):
         co = co_all[sc]
+        pod = l1b.FMT[fmt]["family"] == "pod"
         n = 300 if fmt == "gac_klm" else 120
-        seg = range(n // 3, 2 * n // 3)
+        seg = range(n // 3, 2 * n // 3) if not pod else range(0)      # (POD: channel 3 is always the thermal one)
         first, residue = rng.choice([1, 2, 3, 4, 5]), rng.randrange(5)
         lns = list(range(first, first + n))
         tgt = rng.choice([288.0, 295.0, 301.0])
@@ -158,10 +159,10 @@ def run(res, tier, seed):
         samples = []
         for p_ in range(W):
             samples += [300, 310, cbb[0] if p_ == 0 else 400 + p_ % 500, cbb[1] if p_ == 0 else 350 + p_ % 400, cbb[2] if p_ == 0 else 360 + p_ % 380]
-        start = datetime.datetime(2003, 3, 4, 5, 6, 7) if sc == "noaa16" else datetime.datetime(2010, 3, 4, 5, 6, 7)
+        start = datetime.datetime(2003, 3, 4, 5, 6, 7) if sc == "noaa16" else (datetime.datetime(1996, 3, 4, 5, 6, 7) if pod else datetime.datetime(2010, 3, 4, 5, 6, 7))
         flagged = range(18, 24)      # six lines without earth location: blanked themselves, but their telemetry is valid and used
         lines = l1b.default_lines(fmt, n, start, numbers=lns, counts=samples, switch=[1 if i in seg else 0 for i in range(n)],
-                                  qual=[(1 << 27) if i in flagged else 0 for i in range(n)])
+                                  qual=[(1 << (26 if pod else 27)) if i in flagged else 0 for i in range(n)])
         for i, l in enumerate(lines):
             k = (lns[i] - residue) % 5
             s3 = 0 if k == 0 else tv[k][0]
@@ -170,11 +171,14 @@ def run(res, tier, seed):
             c3i, c3s = (40, 41) if i in seg else (cbb[0], cs[0])      # 3a on: the channel-3 calibration views read visible-channel levels
             l["ict"] = [c3i, cbb[1], cbb[2]] * 10
             l["space"] = [40, 40, c3s, cs[1], cs[2]] * 10
-        ctx = dict(reader=fmt, spacecraft=sc, lines=n, channel_3a_on=[seg[0], seg[-1]], first_line=first, residue=residue,
+        ctx = dict(reader=fmt, spacecraft=sc, lines=n, channel_3a_on=([seg[0], seg[-1]] if len(seg) else None), first_line=first, residue=residue,
                    mean_prt_temperature=tmean4, target_counts=list(cbb), seed=seed)
         try:
             r = impl.open_reader(fmt, l1b.build_file(fmt, sc, start, lines), adjust_clock_drift=False)
             ch = r.get_calibrated_channels()
+            if pod:      # lay the five POD channels out like the six KLM ones (3a slot empty)
+                ch6 = np.full(ch.shape[:2] + (6,), np.nan)
+                ch6[:, :, [0, 1, 3, 4, 5]] = ch
             r.get_counts()
             ch_again = r.get_calibrated_dataset()["channels"].values     # a second calibration on the same reader
         except Exception as e:  # noqa
@@ -185,7 +189,7 @@ def run(res, tier, seed):
             res.violations.append(("a second calibration of the same reader gives other brightness temperatures (the result is not a function of the pixel's count and the telemetry alone)",
                                    dict(ctx, max_difference_K=float(dif.max()), nan_pattern_differs=bool(np.any(np.isnan(ch) != np.isnan(ch_again))))))
         for chan in range(3):
-            col = ch[:, 0, 3 + chan]
+            col = (ch6 if pod else ch)[:, 0, 3 + chan]
             for i in range(n):
                 if (chan == 0 and i in seg) or i in flagged:
                     continue      # 3b is not delivered on these lines (C14) / flagged lines are blanked (C07)
